@@ -16,7 +16,7 @@ IDS = {"a": "ia", "b": "ib", "c": "ic", "d": "id_", "e": "ie", "f": "if_", "a2":
 
 
 def universe_names(tier):
-    return ["a", "b", "c", "d", "a2"] if tier == "quick" else ["a", "b", "c", "d", "e", "a2"]
+    return ["a", "b", "c", "d", "a2"] if tier == "quick" else ["a", "b", "c", "d", "e", "f", "a2"]
 
 
 def make_universe(names):
